@@ -17,4 +17,15 @@ def shippedFiles : List File :=
 /-- `run_migrations(conn)` with the default `sources` -/
 def shippedSources : List (String × List File) := [(Gen.Migrate.defaultPackage, shippedFiles)]
 
+/-- every entry of the dbos package's SQLite migrations directory -/
+def dbosShippedFiles : List File :=
+  Gen.Migrate.dbosFiles.map fun f => { name := f.1, text := f.2.1.map Char.ofNat, stmts := f.2.2.map decodeStmt }
+
+/-- the `sources` `DBOSRuntime.run_migrations` passes (`_SQLITE_SOURCES`): the packages in the regenerated list
+order, each with its regenerated directory -/
+def productionSources : List (String × List File) :=
+  Gen.Migrate.productionPackages.map fun p =>
+    (p, if p = Gen.Migrate.dbosPackage then dbosShippedFiles
+        else if p = Gen.Migrate.defaultPackage then shippedFiles else [])
+
 end Migrate
